@@ -1019,3 +1019,173 @@ Proof.
         apply (step_frame c2 N2 f b2 o h d2 x I2 Fo S' C); [|exact Q].
         intro Y. apply O. eapply exec_owned_mono; eauto.
 Qed.
+
+(* ------------------------------------------------------------------ compatb gives separation *)
+Lemma In_wlist : forall c x, In x (wlist c) <-> In x (c_outputs c) \/ wq c x = true.
+Proof.
+  intros. unfold wlist. rewrite in_app_iff. rewrite wq_spec. destruct (c_obsm c); simpl; split.
+  - intros [H|[H|[]]]; auto.
+  - intros [H|[_ H]]; auto.
+  - intros [H|[]]; auto.
+  - intros [H|[H _]]; [auto | discriminate].
+Qed.
+
+Lemma In_rlist : forall c x, In x (rlist c) <-> In x (c_inputs c) \/ In x (c_outputs c) \/ wq c x = true.
+Proof.
+  intros. unfold rlist. rewrite !in_app_iff. rewrite wq_spec. destruct (c_obsm c); simpl; split.
+  - intros [H|[H|[H|[]]]]; auto.
+  - intros [H|[H|[_ H]]]; auto.
+  - intros [H|[H|[]]]; auto.
+  - intros [H|[H|[H _]]]; [auto | auto | discriminate].
+Qed.
+
+Lemma writes_cases : forall c N x, writes c N x = true -> in_cone c N x = true \/ In x (wlist c).
+Proof.
+  intros c N x H. unfold writes in H. apply orb_true_iff in H. destruct H as [H|H].
+  - apply orb_true_iff in H. destruct H as [H|H]; [auto|].
+    right. apply In_wlist. left. apply mem_In. assumption.
+  - right. apply In_wlist. auto.
+Qed.
+
+Lemma reads_cases : forall c N x, reads c N x = true -> in_cone c N x = true \/ In x (rlist c).
+Proof.
+  intros c N x H. unfold reads in H. apply orb_true_iff in H. destruct H as [H|H].
+  - apply orb_true_iff in H. destruct H as [H|H].
+    + apply orb_true_iff in H. destruct H as [H|H]; [auto|].
+      right. apply In_rlist. left. apply mem_In. assumption.
+    + right. apply In_rlist. right. left. apply mem_In. assumption.
+  - right. apply In_rlist. auto.
+Qed.
+
+Lemma writes_reads : forall c N x, writes c N x = true -> reads c N x = true.
+Proof.
+  intros c N x H. unfold writes in H. unfold reads.
+  apply orb_true_iff in H. destruct H as [H|H].
+  - apply orb_true_iff in H. destruct H as [H|H]; rewrite H; rewrite ?orb_true_r; reflexivity.
+  - rewrite H. rewrite orb_true_r. reflexivity.
+Qed.
+
+Lemma in_cone_prefix : forall c N x, in_cone c N x = true -> is_prefix (c_scratch c) x = true.
+Proof.
+  intros c N x H. destruct (is_prefix (c_scratch c) x) eqn:E; [reflexivity|].
+  rewrite (in_cone_outside c N x E) in H. discriminate.
+Qed.
+
+Lemma prefix_same_pos : forall s a b x,
+  is_prefix (s ++ [a]) x = true -> is_prefix (s ++ [b]) x = true -> a = b.
+Proof.
+  intros s a b x H1 H2. apply is_prefix_spec in H1. apply is_prefix_spec in H2.
+  destruct H1 as [r1 H1]. destruct H2 as [r2 H2]. subst.
+  rewrite <- !app_assoc in H2. apply app_inv_head in H2. simpl in H2. inversion H2. reflexivity.
+Qed.
+
+Lemma In_declared_outside : forall c x,
+  outside_scratch c = true -> In x (rlist c) -> is_prefix (c_scratch c) x = false.
+Proof.
+  intros c x Ho H. apply In_rlist in H. apply outside_scratch_spec; [assumption|].
+  destruct H as [H|[H|H]]; auto. apply wq_spec in H. destruct H as [_ ->]. auto.
+Qed.
+
+Lemma wlist_rlist : forall c x, In x (wlist c) -> In x (rlist c).
+Proof. intros c x H. apply In_wlist in H. apply In_rlist. tauto. Qed.
+
+Lemma sep_one : forall c1 N1 c2 N2,
+  c_scratch c1 = c_scratch c2 ->
+  (forall n, In n N1 -> ~ In n N2) ->
+  (forall p, In p (wlist c1) -> ~ In p (rlist c2)) ->
+  outside_scratch c1 = true -> outside_scratch c2 = true ->
+  forall x, writes c1 N1 x = true -> reads c2 N2 x = false.
+Proof.
+  intros c1 N1 c2 N2 Hs Hn Hw O1 O2 x W.
+  destruct (reads c2 N2 x) eqn:R; [exfalso|reflexivity].
+  apply writes_cases in W. apply reads_cases in R. destruct W as [W|W]; destruct R as [R|R].
+  - unfold in_cone in W, R. apply existsb_exists in W. apply existsb_exists in R.
+    destruct W as [n1 [I1 P1]]. destruct R as [n2 [I2 P2]]. rewrite <- Hs in P2.
+    pose proof (prefix_same_pos _ _ _ _ P1 P2). subst. eapply Hn; eauto.
+  - apply in_cone_prefix in W. rewrite Hs in W.
+    rewrite (In_declared_outside c2 x O2 R) in W. discriminate.
+  - apply in_cone_prefix in R. rewrite <- Hs in R.
+    rewrite (In_declared_outside c1 x O1 (wlist_rlist _ _ W)) in R. discriminate.
+  - eapply Hw; eauto.
+Qed.
+
+Lemma compatb_sep : forall c1 N1 c2 N2, compatb c1 N1 c2 N2 = true ->
+  (forall x, writes c1 N1 x = true -> reads c2 N2 x = false) /\
+  (forall x, writes c2 N2 x = true -> reads c1 N1 x = false) /\
+  outside_scratch c1 = true /\ outside_scratch c2 = true.
+Proof.
+  intros c1 N1 c2 N2 H. unfold compatb in H.
+  repeat (apply andb_true_iff in H; destruct H as [H ?]).
+  apply path_eqb_eq in H.
+  rename H0 into O2. rename H1 into O1. rename H2 into W2. rename H3 into W1. rename H4 into D.
+  rewrite forallb_forall in D, W1, W2.
+  assert (D12 : forall n, In n N1 -> ~ In n N2).
+  { intros n I1 I2. specialize (D n I1). apply negb_true_iff in D.
+    assert (X : existsb (Z.eqb n) N2 = true) by (apply existsb_exists; exists n; split; [assumption | apply Z.eqb_refl]).
+    congruence. }
+  assert (D21 : forall n, In n N2 -> ~ In n N1) by (intros n I2 I1; eapply D12; eauto).
+  assert (W12 : forall p, In p (wlist c1) -> ~ In p (rlist c2)).
+  { intros p I1 I2. specialize (W1 p I1). apply negb_true_iff in W1. apply mem_In in I2. congruence. }
+  assert (W21 : forall p, In p (wlist c2) -> ~ In p (rlist c1)).
+  { intros p I1 I2. specialize (W2 p I1). apply negb_true_iff in W2. apply mem_In in I2. congruence. }
+  split; [|split; [|split]]; auto.
+  - eapply sep_one; eauto.
+  - eapply sep_one; eauto.
+Qed.
+
+(* ------------------------------------------------------------------ concurrent_noninterference *)
+Lemma agree_refl : forall P f, agree P f f.
+Proof. intros P f p _. reflexivity. Qed.
+
+Lemma output_untouched_args : forall c N o,
+  outside_scratch c = true -> mem (c_query c) (c_outputs c) = false -> In o (c_outputs c) ->
+  in_cone c N o = false /\ wq c o = false.
+Proof.
+  intros c N o Ho Hq Hi. split.
+  - apply in_cone_outside. apply outside_scratch_spec; auto.
+  - destruct (wq c o) eqn:W; [|reflexivity]. apply wq_spec in W. destruct W as [_ ->].
+    apply mem_false in Hq. contradiction.
+Qed.
+
+Theorem concurrent_noninterference_thm : forall c1 c2 f il g1 g2,
+  mem (c_query c1) (c_outputs c1) = false -> mem (c_query c2) (c_outputs c2) = false ->
+  accept c1 f (proj true il) = Accepted g1 ->
+  accept c2 f (proj false il) = Accepted g2 ->
+  compatb c1 (fresh_names c1 (proj true il)) c2 (fresh_names c2 (proj false il)) = true ->
+  exists g, accept2 c1 c2 f il = Accepted2 g /\
+    (forall o, In o (c_outputs c1) -> lookup g o = lookup g1 o) /\
+    (forall o, In o (c_outputs c2) -> lookup g o = lookup g2 o).
+Proof.
+  intros c1 c2 f il g1 g2 Q1 Q2 H1 H2 HC.
+  set (N1 := fresh_names c1 (proj true il)) in *. set (N2 := fresh_names c2 (proj false il)) in *.
+  apply compatb_sep in HC. destruct HC as [S12 [S21 [O1 O2]]].
+  apply accept_exec in H1. destruct H1 as [b1' [E1 D1]].
+  apply accept_exec in H2. destruct H2 as [b2' [E2 D2]].
+  destruct (exec2_sim c1 c2 N1 N2 S12 S21 il f f f bk0 bk0 g1 b1' g2 b2'
+              (inv_bk0 _ _) (inv_bk0 _ _) (incl_refl _) (incl_refl _)
+              (agree_refl _ _) (agree_refl _ _) E1 E2) as [g [X [B1 [B2 [G1 G2]]]]].
+  exists g. split; [|split].
+  - unfold accept2. apply run2_exec2. eauto.
+  - intros o Ho. destruct (mem o (b_owned b1')) eqn:M.
+    + symmetry. apply B1. right. right. right. apply mem_In. assumption.
+    + apply mem_false in M.
+      destruct (output_untouched_args c1 N1 o O1 Q1 Ho) as [C W].
+      assert (W2 : writes c2 N2 o = false).
+      { destruct (writes c2 N2 o) eqn:E; [|reflexivity]. apply S21 in E.
+        assert (R : reads c1 N1 o = true).
+        { unfold reads. apply mem_In in Ho. rewrite Ho. rewrite orb_true_r. reflexivity. }
+        congruence. }
+      rewrite (G1 o C M W W2). symmetry.
+      eapply exec_frame; eauto using inv_bk0, incl_refl.
+  - intros o Ho. destruct (mem o (b_owned b2')) eqn:M.
+    + symmetry. apply B2. right. right. right. apply mem_In. assumption.
+    + apply mem_false in M.
+      destruct (output_untouched_args c2 N2 o O2 Q2 Ho) as [C W].
+      assert (W1 : writes c1 N1 o = false).
+      { destruct (writes c1 N1 o) eqn:E; [|reflexivity]. apply S12 in E.
+        assert (R : reads c2 N2 o = true).
+        { unfold reads. apply mem_In in Ho. rewrite Ho. rewrite orb_true_r. reflexivity. }
+        congruence. }
+      rewrite (G2 o C M W W1). symmetry.
+      eapply exec_frame; eauto using inv_bk0, incl_refl.
+Qed.
